@@ -792,6 +792,23 @@ def oracle_C14(rs, n, ctx):
                 k_ = tuple(int(np.searchsorted(axes[a], p[a], side="right") - 1) for a in range(nd))
                 if all(axes[a][k_[a]] == p[a] for a in range(nd)) and abs(val - vals[k_]) > 1e-12 * scale:
                     R.violate("C14:node", f"node {k_}: {val!r} vs {vals[k_]!r}", r2)
+        # the same object after it was resampled to another shape: evaluation must be multilinear interpolation on the axes
+        # of the CURRENT data (origin + index * current spacing), i.e. agree with SciPy on those axes (no rs consumption)
+        if it % 3 == 0:
+            rs2 = np.random.RandomState(7000003 + it)
+            g_r = cls_g(vals.copy(), d, o)
+            g_r(np.array(pts[0][0]))
+            nshape = tuple(int(rs2.randint(2, 8)) for _ in range(nd))
+            try:
+                g_r.resample(nshape)
+                ax_r = [np.asarray(o[a]) + g_r.gridsize[a] * np.arange(nshape[a]) for a in range(nd)]
+                sp_r = RegularGridInterpolator(tuple(ax_r), g_r.grid, method="linear", bounds_error=False, fill_value=np.nan)
+                qr = np.array([[ax_r[a][0] + rs2.rand() * (ax_r[a][-1] - ax_r[a][0]) for a in range(nd)] for _ in range(5)])
+                got, ref_r = np.asarray(g_r(qr)), sp_r(qr)
+                if np.isnan(got).any() or np.abs(got - ref_r).max() > 1e-9 * max(np.abs(vals).max(), 1e-300):
+                    R.violate("C14:after-resample", f"after resample to {nshape} the evaluation differs from multilinear interpolation on the current axes by {np.nanmax(np.abs(got - ref_r)):.3e} (NaN: {int(np.isnan(got).sum())})", dict(rep, new_shape=list(nshape), points_hex=hexl(qr)))
+            except Exception as ex:  # noqa: BLE001
+                R.violate(f"C14:after-resample-raises:{type(ex).__name__}", f"{type(ex).__name__}: {ex}", dict(rep, new_shape=list(nshape)))
         # equivariance under axis relabelling
         perm = list(rs.permutation(nd))
         g2 = cls_g(np.transpose(vals, perm), [d[a] for a in perm], [o[a] for a in perm])
